@@ -221,19 +221,31 @@ def count_events(seqs, wins, R):
 def em(seqs, n_rows, n, wins, radii, P, M0, n_iter, eps, rows_of=None, times=None, ngram=1, multi=None):
     """Documented EM procedure on a dense float64 matrix.  Returns (M, ambiguous)."""
 
-    def norm_thr(M):
+    exact_hits = [0]
+
+    def norm_thr(M, exact=False):
         cs = M.sum(0)
         cs[cs == 0] = 1.0
         M = M / cs
-        amb = bool(np.any((np.abs(M - eps) < 1e-4 * max(eps, 1e-12)) & (M > 0))) if eps > 0 else False
+        near = (np.abs(M - eps) < 1e-4 * max(eps, 1e-12)) & (M > 0) if eps > 0 else np.zeros(M.shape, dtype=bool)
+        if exact:
+            # integer counts and a dyadic epsilon: count/sum == epsilon is computed exactly in float32 and float64 alike,
+            # so a cell *equal* to epsilon is decided ("below epsilon" is strict: it stays); only unequal near-misses are ambiguous
+            eq = near & (M == eps)
+            exact_hits[0] += int(eq.sum())
+            near = near & ~eq
+        amb = bool(np.any(near))
         M = np.where(M < eps, 0.0, M)
         return M, amb
 
     amb = False
     M = np.array(M0, dtype=float)
     if n_iter > 0 or eps > 0:
-        M, a = norm_thr(M)
+        dyadic = eps > 0 and float(eps * 1024).is_integer()
+        ints = bool(np.all(M == np.round(M))) and float(M.sum(0).max() if M.size else 0) < 2**24
+        M, a = norm_thr(M, exact=dyadic and ints)
         amb |= a
+    em.last_exact_hits = exact_hits[0]
     for _ in range(n_iter):
         post = np.zeros_like(M)
         if multi is None:
